@@ -590,6 +590,12 @@ def run(ck: common.Check):
                                {kk: o.get(kk) for kk in ("exc", "msg", "edges", "node_meta", "edge_meta", "store")},
                                mo if "exc" in mo else "see model")
     ck.extra["s_oracle_evaluations"] = s_evals
+    ck.extra["explanation"] = (
+        "C20_edges is proved about Gen.MockEdges.gen, regenerated from the source by T9 on every run (all directed, n, m); "
+        "the rest of the six helpers is a hand-written model (Geff.MockData) tied by the grid correspondence, with the "
+        "forwarding of every parameter and the wrappers' constants additionally decided on tables regenerated from the source "
+        "(T9b). 'store denotes memory' rests on C01: this property proves that the store is written from the returned geff and "
+        "that it satisfies C01's/C12's preconditions; the real validate_structure / validate_data / read_to_memory run on every case.")
     ck.assumptions += [
         "numpy (arange, linspace, dtype names, object arrays), pydantic metadata construction and write_arrays/"
         "read_to_memory are modelled or used as given, not verified; store == memory relies on C01",
